@@ -15,10 +15,11 @@ class C20(vlib.Check):
     partial = ('absence of data races in compiled code is OBSERVED (ThreadSanitizer over the sampled programs and schedules), '
                'not proved; what is proved is (a) no shared mutable state exists in the headers (source-derived inventory) and '
                '(b) schedule independence of the model; state hidden behind libc calls (locale) is covered only by the whitelist')
-    rule = ('cases = (threads, seed, operations per thread): 2-16 threads, each running a seeded program of 30 operation kinds '
+    rule = ('cases = (threads, seed, operations per thread): 2-16 threads, each running a seeded program of 32 operation kinds '
             '(18 kinds of const members / free functions / conversions / formatting / codecs / stream insertion on 12 shared '
             'strings, 4 shared char buffers and 4 shared UTF-16 buffers, incl. floating-point renderings of 64 characters and more; 11 kinds on '
-            'thread-local strings, streams, buffers, incl. move-construct-then-clear of the moved-from object); '
+            'thread-local strings, streams, buffers, incl. move-construct-then-clear of the moved-from object and outputs of 2-9 KiB through '
+            'ST::format / format_latin_1 / local string_streams); '
             'non-trivial = at least 2 threads and 100 operations per thread; distinct = distinct case line')
     modelled_not_verified = ('ThreadSanitizer (g++ 12) as the observer of data races', 'libc snprintf/strtod/strtol are re-entrant '
                              'given an unchanging locale (whitelist)', 'the results themselves are compared between the concurrent '
